@@ -2,6 +2,8 @@ package main
 
 import (
 	"fmt"
+	"os"
+	"path/filepath"
 	"strings"
 
 	"github.com/semihalev/twig"
@@ -59,6 +61,142 @@ func c14BodiesOfAnySize(res *Result) {
 						Expected: clip(want) + fmt.Sprintf(" (%d bytes)", len(want)), Observed: clip(got) + fmt.Sprintf(" (%d bytes)", len(got)),
 						Detail: "body " + k.open + body + k.close + " with %P standing for " + fmt.Sprint(n) + " letters p (" + where + "): the result differs from the one for a short padding, lengthened"})
 					return
+				}
+			}
+		}
+	}
+}
+
+// c14StaticTemplates: templates that hold literal text and comments only (no print tag, no block tag), of every size:
+// the output is the text with the comments taken out, below and above every threshold.
+func c14StaticTemplates(res *Result) {
+	for _, n := range []int{10, 1000, 4000, 4090, 4096, 4097, 5000, 8192, 40000, 65536, 70000, 300000} {
+		for _, shape := range []string{"header", "middle", "trailer", "several", "looks-like-tags-inside", "escaped-opener"} {
+			pad := strings.Repeat("p.note: margin 0; /* css */ ", n/20+2)[:n]
+			var src, want string
+			switch shape {
+			case "header":
+				src, want = "{# licence header #}"+pad, pad
+			case "middle":
+				src, want = pad[:n/2]+"{# note #}"+pad[n/2:], pad
+			case "trailer":
+				src, want = pad+"{# end #}", pad
+			case "several":
+				src, want = "{# a #}"+pad[:n/3]+"{# b\nb #}"+pad[n/3:]+"{##}", pad
+			case "looks-like-tags-inside":
+				src, want = pad[:n/2]+"{# {{ x }} {% if y %} #}"+pad[n/2:], pad
+			default:
+				src, want = pad[:n/2]+"\\{# not a comment #}"+pad[n/2:]+"{# c #}", pad[:n/2]+"{# not a comment #}"+pad[n/2:]
+			}
+			c := Case{"stream": "static-templates", "shape": shape, "bytes of text": n}
+			res.Hist["stream:static-templates"]++
+			res.count(fmt.Sprint("static-templates", shape, n), n > 4096)
+			for _, route := range []string{"RegisterString", "include"} {
+				eng := twig.New()
+				name := "t"
+				if err := eng.RegisterString("t", src); err != nil {
+					res.add(Finding{Kind: "oracle", Where: "static-templates/" + shape, Case: c, Expected: "parses", Observed: err.Error()})
+					return
+				}
+				w := want
+				if route == "include" {
+					eng.RegisterString("page", "<{% include 't' %}>")
+					name, w = "page", "<"+want+">"
+				}
+				res.Evaluations++
+				got, err := eng.Render(name, nil)
+				if err != nil {
+					got = "error: " + err.Error()
+				}
+				if got != w {
+					res.add(Finding{Kind: "oracle", Where: "static-templates/" + shape + "/" + route, Case: c, Expected: clip(w) + fmt.Sprintf(" (%d bytes)", len(w)), Observed: clip(got) + fmt.Sprintf(" (%d bytes)", len(got)),
+						Detail: "a template of text and comments only: the comments contribute nothing, whatever the length of the text"})
+					return
+				}
+			}
+		}
+	}
+}
+
+// c14ThroughLoaders: a template of any size reads the same from every loader: array, files, chain, compiled files
+// written by SaveCompiled, serialised forms.
+func c14ThroughLoaders(cases string, res *Result) {
+	dir := filepath.Join(filepath.Dir(cases), "c14loaders")
+	defer os.RemoveAll(dir)
+	for _, n := range []int{100, 3000, 4000, 4080, 4090, 4096, 4100, 5000, 8192, 9000, 65536, 70000, 200000} {
+		for _, shape := range []string{"tags at the end", "tags throughout", "a tag across 4096"} {
+			pad := strings.Repeat("lorem ipsum dolor ", n/18+2)[:n]
+			var src, want string
+			switch shape {
+			case "tags at the end":
+				src, want = pad+"{{ a }}{% if c %}yes{% endif %}{# c #}end", pad+"Ayesend"
+			case "tags throughout":
+				src, want = "{{ a }}"+pad[:n/2]+"{% if c %}[{{ a }}]{% endif %}"+pad[n/2:]+"{{ a }}", "A"+pad[:n/2]+"[A]"+pad[n/2:]+"A"
+			default:
+				k := n - 3
+				if n > 4096 {
+					k = 4093
+				}
+				src, want = pad[:k]+"{{ a }}"+pad[k:]+"|{{ a }}", pad[:k]+"A"+pad[k:]+"|A"
+			}
+			os.RemoveAll(dir)
+			os.MkdirAll(filepath.Join(dir, "files"), 0o755)
+			os.MkdirAll(filepath.Join(dir, "compiled"), 0o755)
+			os.WriteFile(filepath.Join(dir, "files", "page.twig"), []byte(src), 0o644)
+			ref := twig.New()
+			if ref.RegisterString("page.twig", src) != nil {
+				continue
+			}
+			if err := twig.NewCompiledLoader(filepath.Join(dir, "compiled")).SaveCompiled(ref, "page.twig"); err != nil {
+				res.add(Finding{Kind: "oracle", Where: "through-loaders/SaveCompiled", Case: Case{"stream": "through-loaders", "bytes of text": n, "shape": shape}, Expected: "written", Observed: err.Error()})
+				return
+			}
+			var blob []byte
+			if t, err := ref.Load("page.twig"); err == nil {
+				blob, _ = t.SaveCompiled()
+			}
+			routes := []struct {
+				name string
+				mk   func(e *twig.Engine) error
+			}{
+				{"ArrayLoader", func(e *twig.Engine) error {
+					e.RegisterLoader(twig.NewArrayLoader(map[string]string{"page.twig": src}))
+					return nil
+				}},
+				{"FileSystemLoader", func(e *twig.Engine) error {
+					e.RegisterLoader(twig.NewFileSystemLoader([]string{filepath.Join(dir, "files")}))
+					return nil
+				}},
+				{"ChainLoader", func(e *twig.Engine) error {
+					e.RegisterLoader(twig.NewChainLoader([]twig.Loader{twig.NewArrayLoader(map[string]string{}), twig.NewFileSystemLoader([]string{filepath.Join(dir, "files")})}))
+					return nil
+				}},
+				{"CompiledLoader", func(e *twig.Engine) error {
+					e.RegisterLoader(twig.NewCompiledLoader(filepath.Join(dir, "compiled")))
+					return nil
+				}},
+				{"LoadFromCompiledData", func(e *twig.Engine) error { return e.LoadFromCompiledData(blob) }},
+			}
+			for _, rt := range routes {
+				for _, cache := range []bool{true, false} {
+					e := twig.New()
+					e.SetCache(cache)
+					if rt.mk(e) != nil {
+						continue
+					}
+					c := Case{"stream": "through-loaders", "route": rt.name, "cache": cache, "bytes of text": n, "shape": shape}
+					res.Hist["stream:through-loaders"]++
+					res.count(fmt.Sprint("through-loaders", rt.name, cache, n, shape), n > 4096)
+					res.Evaluations++
+					got, err := e.Render("page.twig", map[string]interface{}{"a": "A", "c": true})
+					if err != nil {
+						got = "error: " + err.Error()
+					}
+					if got != want {
+						res.add(Finding{Kind: "oracle", Where: "through-loaders/" + rt.name, Case: c, Expected: clip(want) + fmt.Sprintf(" (%d bytes)", len(want)), Observed: clip(got) + fmt.Sprintf(" (%d bytes)", len(got)),
+							Detail: "the template read through this loader renders differently from the same text registered directly"})
+						return
+					}
 				}
 			}
 		}
